@@ -116,3 +116,25 @@ Section TransposeFold.
     exists vx. split; auto. apply transpose_inverse; auto.
   Qed.
 End TransposeFold.
+
+(* ---------------------------------------------------------------- operator sets (translated) *)
+From J2OGen Require Import GenOpt.
+
+(* ONNX operators whose output element at an index depends only on the input elements at that index
+   (pointwise), so that they commute with Transpose/Reshape of their full-shape operand *)
+Definition pointwise_unary : list string :=
+  ["Abs"; "Cast"; "Elu"; "Exp"; "Gelu"; "Identity"; "LeakyRelu"; "Log"; "Neg"; "Not"; "Relu"; "Sigmoid";
+   "Sqrt"; "Swish"; "Tanh"]%string.
+(* pointwise in their first operand, with extra operands that must be scalars (or, for CastLike, type-only) *)
+Definition pointwise_with_side_operands : list string := ["CastLike"; "Clip"; "Max"; "Min"]%string.
+Definition pointwise_binary : list string := ["Add"; "Clip"; "Div"; "Max"; "Min"; "Mul"; "Sub"]%string.
+
+Lemma allowed_elemwise_pointwise :
+  forallb (fun o => str_in o (pointwise_unary ++ pointwise_with_side_operands)) ALLOWED_ELEMWISE = true.
+Proof. vm_compute. reflexivity. Qed.
+Lemma elementwise_unary_pointwise :
+  forallb (fun o => str_in o (pointwise_unary ++ ["CastLike"]%string)) ELEMENTWISE_UNARY_OPS = true.
+Proof. vm_compute. reflexivity. Qed.
+Lemma elementwise_binary_pointwise :
+  forallb (fun o => str_in o pointwise_binary) ELEMENTWISE_BINARY_OPS = true.
+Proof. vm_compute. reflexivity. Qed.
